@@ -217,6 +217,46 @@ def _edge_chi2(ek):
     return fn
 
 
+def _info_edited(ek):
+    """the edge is constructed with a DIAGONAL information matrix; correlation terms are then written into the same array
+    in place (through the edge's attribute and through the caller's own reference): chi^2 is e^T Omega e of the CURRENT
+    matrix"""
+
+    def fn(P, g):
+        import numpy
+
+        np = P.np
+        n = COMPACT[ek[1]] if ek[0] == "odom" else COMPACT[POINT_OF[ek[1]]]
+        diag = P.reals("d", n)
+        om = numpy.zeros((n, n), dtype=object if P.symbolic else float)
+        for i in range(n):
+            om[i, i] = diag[i]
+        e, v1, v2 = mk_edge(P, g, ek, info=om)
+        e.calc_chi2()
+        k = 0
+        for i in range(n):
+            for j in range(i + 1, n):
+                val = P.real("c%d" % k)
+                k += 1
+                if k % 2:
+                    e.information[i, j] = val
+                    e.information[j, i] = val
+                else:
+                    om[i, j] = val
+                    om[j, i] = val
+        err = e.calc_error()
+        ref = 0.0
+        for i in range(n):
+            for j in range(n):
+                ref = ref + om[i][j] * err[i] * err[j]
+        P.check("same_array", e.information is om)
+        P.check_eq("chi2_current_information", e.calc_chi2(), ref)
+        c2, grads, hess = e.calc_chi2_gradient_hessian()
+        P.check_eq("gh_chi2_current_information", c2, ref)
+
+    return fn
+
+
 def _graph_sum(eks, fixed=False):
     def fn(P, g):
         edges, verts = [], []
@@ -261,6 +301,8 @@ def cases(tier):
         heavy = ek[1] == "SE3"
         out.append(Case("error-%s-%s" % ek, _error(ek), timeout=10, old_timeout=30, validate=v, shards=3 if heavy else 1))
         out.append(Case("zero-%s-%s" % ek, _zero(ek), timeout=10, old_timeout=30, validate=v))
+        if ek[1] != "SE3" or ek[0] == "lmk":
+            out.append(Case("info-edited-%s-%s" % ek, _info_edited(ek), timeout=10, old_timeout=30, validate=1, cert_first=ek[1] in ("SE2", "SE3")))
         for mode in ("inplace", "rebind", "iadd"):
             if tier == "quick" and heavy and mode != "inplace":
                 continue
